@@ -433,6 +433,15 @@ def matchpy_bridge(tier):
         if why:
             b.fail(Failure("matchpy-bridge", f"what=match-anywhere pattern={pat!r} subject={subj!r} why={why[:200]}", dict(kind="mp-anywhere", pattern=trees.src(pat), subject=trees.src(subj)),
                            expected="exactly the matching subtrees with sound substitutions", actual=why[:300], functions=["pymbolic.interop.matchpy.match_anywhere", "_get_operand_at_path"]))
+    # a bare wildcard as pattern: every subexpression of the subject matches (the bridge's own atoms - identifier strings, operator names - are not subexpressions)
+    for subj in (p.Sum((x, 1)), p.Call(p.Variable("f"), (x, b_)), p.Comparison(p.Call(p.Variable("f"), (x,)), "<", 2)):
+        r = outcome.run(lambda: list(m.match_anywhere(subj, p.DotWildcard("w_"))))
+        b.case(("anywhere-bare-wildcard", repr(subj)), nontrivial=True)
+        want = {repr(ac_norm(t)) for t in subtrees(subj) if isinstance(t, p.Expression) or isinstance(t, (int, float))}
+        got = {repr(ac_norm(sub)) for _, sub in r[1]} if r[0] == "val" else None
+        if r[0] != "val" or not got <= want or not {repr(ac_norm(t)) for t in subtrees(subj) if isinstance(t, p.Expression)} <= got:
+            b.fail(Failure("matchpy-bridge", f"cause=bare-wildcard-visits-bridge-atoms what=match-anywhere subject={subj!r}", dict(kind="mp-anywhere-bare", subject=trees.src(subj)), expected="one match per subexpression",
+                           actual=outcome.describe(r)[:200], functions=["pymbolic.interop.matchpy.match_anywhere"]))
     # replacement with multiplicities: a*c*ws -> 6*ws
     from pytools import product
     from pymbolic.mapper.evaluator import EvaluationMapper
